@@ -78,7 +78,7 @@ COST_SAMPLES = [
     ('contract_storage_wacc_day_unit', 'contract_storage', dict(T=3, freq='12h', unit='d', wacc=True)),
     ('two_node_2n_storage', 'two_node', dict(T=2, two_node_storage=True, wacc=True, gridv='day_d_cet_dst')),
     ('multicommodity_take', 'multicommodity', dict(T=3, take=(0, 3), gridv='quarter_min')),
-    ('plant_fuel', 'plant', dict(T=3, fuel=True, mr=2, gridv='month_d')),
+    ('plant_fuel', 'plant', dict(T=3, fuel=True, mr=2, gridv='day_d_cet_dst')),
     ('chp', 'plant', dict(T=2, fuel=True, heat=True, ramp=True)),
     ('coarse_contract', 'coarse', dict(T=4, kind='contract', ec=True)),
     ('coarse_transport', 'coarse', dict(T=4, kind='transport', eff=0.5)),
